@@ -13,7 +13,8 @@ import (
 
 const sep = "\x00"
 
-// RejectAnnotation makes the (dry-run or real) admission of an object fail with 422.
+// RejectAnnotation makes the (dry-run or real) admission of an object fail: "true" with 422 Invalid,
+// "internal" / "unavailable" / "toomany" with 500 / 503 / 429.
 const RejectAnnotation = "verif/reject"
 
 func gr(k Key) schema.GroupResource {
@@ -58,6 +59,16 @@ func validate(k Key, c map[string]any) *apierrors.StatusError {
 	}
 	if len(errs) > 0 {
 		return apierrors.NewInvalid(k.GK(), k.Name, errs)
+	}
+	// admission that cannot be consulted at all (failing webhook, overloaded server): status errors
+	// that say neither "invalid" nor "forbidden"
+	switch Annotations(c)[RejectAnnotation] {
+	case "internal":
+		return apierrors.NewInternalError(fmt.Errorf("failed calling webhook (scripted): connection refused"))
+	case "unavailable":
+		return apierrors.NewServiceUnavailable("admission unavailable (scripted)")
+	case "toomany":
+		return apierrors.NewTooManyRequests("slow down (scripted)", 1)
 	}
 	return nil
 }
